@@ -572,3 +572,52 @@ package client
 //@   ensures [C13] unchanged-runs-nothing: len(pts) > 0 && rc.config.Active == old(rc.config.Active) ==> listKept(rc.config.Actions) && listKept(rc.config.ActionsInactive)
 //@   ensures [C13] active-runs-actions: (len(pts) <= 0 || rc.config.Active != old(rc.config.Active)) && rc.config.Active && old(noNotify(rc.config.Actions)) ==> allSetWritten(rc, rc.config.Actions) && allInactive(rc.config.ActionsInactive)
 //@   ensures [C13] inactive-runs-inactive-actions: (len(pts) <= 0 || rc.config.Active != old(rc.config.Active)) && !rc.config.Active && old(noNotify(rc.config.ActionsInactive)) ==> allSetWritten(rc, rc.config.ActionsInactive) && allInactive(rc.config.Actions)
+
+// ---- manager.go (C08): echo filter of the per-client up.<id>.> subscription -------------------------------
+// The callback is verified on its own (cs is its captured variable). What the client is told is the log of calls
+// of cs.client.Points / EdgePoints: entry i is (toldEdge, toldNode, toldParent, toldPts)(client, i), toldN entries.
+// The decoded batch and the subject parts are functions of the message (pbN/pbPt of the payload bytes,
+// splitN/splitPart of the subject): decoding and splitting are deterministic.
+
+//@ model func toldN(c Client) int
+//@ model func toldEdge(c Client, i int) bool
+//@ model func toldNode(c Client, i int) string
+//@ model func toldParent(c Client, i int) string
+//@ model func toldPts(c Client, i int) []data.Point
+//@ spec func toldKept(c Client) bool = toldN(c) >= old(toldN(c)) && (forall i int :: i < old(toldN(c)) ==> toldEdge(c, i) == old(toldEdge(c, i)) && toldNode(c, i) == old(toldNode(c, i)) && toldParent(c, i) == old(toldParent(c, i)) && sameSlice(toldPts(c, i), old(toldPts(c, i))))
+//@ extern client.(Client).Points(self, nodeID, points)
+//@   modifies self
+//@   ensures toldKept(self) && toldN(self) == old(toldN(self)) + 1 && !toldEdge(self, old(toldN(self))) && toldNode(self, old(toldN(self))) == nodeID && sameSlice(toldPts(self, old(toldN(self))), points)
+//@ extern client.(Client).EdgePoints(self, nodeID, parentID, points)
+//@   modifies self
+//@   ensures toldKept(self) && toldN(self) == old(toldN(self)) + 1 && toldEdge(self, old(toldN(self))) && toldNode(self, old(toldN(self))) == nodeID && toldParent(self, old(toldN(self))) == parentID && sameSlice(toldPts(self, old(toldN(self))), points)
+//@ extern client.(*clientState[T]).stop(cs, err)
+
+//@ spec func own(p data.Point, nodeID string, self string) bool = (p.Origin == "" && nodeID == self) || p.Origin == self
+//@ spec func restarts(p data.Point) bool = (p.Type == "tombstone" && (p.Value == 1.0 || p.Value == 0.0)) || p.Type == "nodeType"
+//@ spec func batchIs(pts []data.Point, b []byte) bool = len(pts) == pbN(b) && (forall k int :: 0 <= k && k < len(pts) ==> pts[k] == pbPt(b, k))
+
+//@ func (*Manager[T]).scan$2
+//@   props C08
+//@   local msg *nats.Msg#1
+//@   local points data.Points#1
+//@   local nodeID string#1
+//@   requires msg != nil && cs != nil
+//@   modifies cs.client
+//@   ensures [C08] log-kept: toldKept(cs.client)
+//@   ensures [C08] foreign-node-points-delivered: pbOK(msg.Data) && splitN(msg.Subject, ".") == 3 && (forall k int :: 0 <= k && k < pbN(msg.Data) ==> !own(pbPt(msg.Data, k), splitPart(msg.Subject, ".", 2), cs.node.ID)) ==> toldN(cs.client) == old(toldN(cs.client)) + 1 && !toldEdge(cs.client, old(toldN(cs.client))) && toldNode(cs.client, old(toldN(cs.client))) == splitPart(msg.Subject, ".", 2) && batchIs(toldPts(cs.client, old(toldN(cs.client))), msg.Data)
+//@   ensures [C08] own-node-points-dropped: splitN(msg.Subject, ".") == 3 && (exists k int :: 0 <= k && k < pbN(msg.Data) && own(pbPt(msg.Data, k), splitPart(msg.Subject, ".", 2), cs.node.ID)) ==> toldN(cs.client) == old(toldN(cs.client))
+//@   ensures [C08] edge-points-delivered: pbOK(msg.Data) && splitN(msg.Subject, ".") == 4 && cs.client != nil && (forall k int :: 0 <= k && k < pbN(msg.Data) ==> !restarts(pbPt(msg.Data, k))) ==> toldN(cs.client) == old(toldN(cs.client)) + 1 && toldEdge(cs.client, old(toldN(cs.client))) && toldNode(cs.client, old(toldN(cs.client))) == splitPart(msg.Subject, ".", 2) && toldParent(cs.client, old(toldN(cs.client))) == splitPart(msg.Subject, ".", 3) && batchIs(toldPts(cs.client, old(toldN(cs.client))), msg.Data)
+//@   ensures [C08] malformed-dropped: (!pbOK(msg.Data) || (splitN(msg.Subject, ".") != 3 && splitN(msg.Subject, ".") != 4)) ==> toldN(cs.client) == old(toldN(cs.client))
+//@   loop 1:
+//@     invariant -1 <= rangeindex && rangeindex < len(points) || rangeindex == -1
+//@     invariant forall k int :: 0 <= k && k <= rangeindex ==> !own(points[k], nodeID, cs.node.ID)
+//@     decreases len(points) - rangeindex
+//@   loop 2:
+//@     invariant -1 <= rangeindex && rangeindex < len(points) || rangeindex == -1
+//@     invariant forall k int :: 0 <= k && k <= rangeindex ==> !restarts(points[k])
+//@     decreases len(points) - rangeindex
+//@   loop 3:
+//@     invariant true
+//@   loop 4:
+//@     invariant true
